@@ -566,9 +566,9 @@ PLAN = {
     "C05": ((0,), [("g11", 20, 200), ("g1", 220, 3000), ("g2", 40, 800), ("g3", 4, 24), ("g5", 30, 600), ("g4", 12, 100), ("g3s", 1, 6), ("g10", 6, 40)]),
     "C06": ((0, 1, 2), [("g13", 2, 6), ("g7", 160, 2500), ("g1", 120, 1500), ("g5", 20, 300), ("g3", 2, 10), ("g11", 8, 60)]),
     "C07": ((0, 1, 2), [("g11", 20, 200), ("g1", 150, 2000), ("g2", 40, 800), ("g3", 5, 30), ("g5", 40, 800), ("g7", 60, 400), ("g4", 70, 700), ("g3s", 1, 8)]),
-    "C08": ((0, 1, 2), [("g5", 90, 2500)]),
+    "C08": ((0, 1, 2), [("g15", 7, 7), ("g5", 90, 2500)]),
     "C09": ((0, 1, 2), [("g13", 3, 12), ("g7", 200, 3000), ("g1", 100, 1500), ("g5", 30, 400), ("g3", 2, 10), ("g11", 8, 60)]),
-    "C10": ((0, 1, 2), [("g15", 5, 5), ("g6", 620, 4000), ("g3", 5, 30), ("g3s", 2, 10), ("g4", 14, 140), ("g11", 10, 80), ("g5", 10, 120)]),
+    "C10": ((0, 1, 2), [("g15", 7, 7), ("g6", 620, 4000), ("g3", 5, 30), ("g3s", 2, 10), ("g4", 14, 140), ("g11", 10, 80), ("g5", 10, 120)]),
     "C11": ((0, 1, 2), [("g3", 7, 40), ("g3s", 3, 16), ("g4", 35, 350)]),
     "C12": ((0,), [("g1", 200, 3000), ("g2", 40, 800), ("g5", 40, 800), ("g11", 10, 100), ("g10", 6, 40)]),
     "C13": ((0, 1, 2), [("g16", 24, 60), ("g1", 200, 3000), ("g2", 40, 800), ("g3", 4, 24), ("g5", 30, 600), ("g10", 12, 60), ("g4", 35, 350), ("g11", 30, 300)]),
@@ -744,6 +744,15 @@ def g15_long(rng, n, prefix="g15"):
         pv = [(p, j + 1) for j, p in enumerate(pats)]
         hs = [b"aaab", pats[0][:20] + b"x" + pats[-1][:6]]
         cases.append(Case(f"{prefix}_{k}", var, kind, 16, "u32", "values" if k % 2 == 0 else "build", "SN", pv, hs, b"", suite="long"))
+    if n > len(plan):
+        # an alphabet above 2^16 distinct characters (character-wise block length 2^17): 66 patterns of
+        # 1000 pairwise distinct characters each; the byte-wise twin of the same patterns
+        cps = [c for c in range(0x4E00, 0x4E00 + 70000) if not 0xD800 <= c <= 0xDFFF][:66000]
+        pats = [enc(cps[i * 1000:(i + 1) * 1000]) for i in range(66)]
+        hs = [enc(cps[995:1003]), enc([cps[0], cps[1], 0x61, cps[65999]])]
+        for var in ("cw", "bw"):
+            cases.append(Case(f"{prefix}_alpha_{var}", var, 0, 16, "u32", "values", "SN", [(p, j) for j, p in enumerate(pats)], hs, b"",
+                              group=f"{prefix}_alpha", suite="long"))
     return cases
 
 
